@@ -33,6 +33,7 @@ func init() {
 	more["regexp.MustCompile"] = libMustCompile
 	more["strings.SplitN"] = libSplitN
 	more["strings.Split"] = libSplit
+	more["strconv.Atoi"] = libAtoi
 	more["strings.Contains"] = libContains
 	for k, v := range more {
 		libModels[k] = v
@@ -418,4 +419,13 @@ func libSplit(g *FuncGen, c *ast.CallExpr, callee *types.Func, st *State) []Val 
 	r := g.freshVal(st, "split", ty)
 	g.assume(st, fmt.Sprintf("(= %s (splitAll %s %s))", r.T, s.T, sep.T))
 	return []Val{r}
+}
+
+// strconv.Atoi: a non-empty string of decimal digits that parses yields a non-negative number (= atoi)
+func libAtoi(g *FuncGen, c *ast.CallExpr, callee *types.Func, st *State) []Val {
+	s := g.ev(c.Args[0], st)
+	res := g.libResults(callee, st)
+	g.assume(st, fmt.Sprintf("(=> (= %s 0) (= %s (atoi %s)))", res[1].T, res[0].T, s.T))
+	g.assume(st, fmt.Sprintf("(=> (and (= %s 0) (allDigits %s)) (>= %s 0))", res[1].T, s.T, res[0].T))
+	return res
 }
